@@ -3,7 +3,7 @@
    Quantification: EVERY remote index map / interface map / container layout / payload values / policy (copy, add) /
    direction (fwd = true forward, false backward) / completion order of MPI_Waitany. *)
 From Coq Require Import List Arith Bool PeanoNat NArith Permutation Sorted.
-From DuneV Require Import Params_gen C05_Model C05_Spec C05_Proofs C05_Proofs_Comm C05_Proofs_Deliv C05_Proofs_Glue C05_Proofs_Remote C05_Proofs_Phase C05_Proofs_Dt C05_Proofs_Dec C05_Proofs_Obj C05_Proofs_Seq C05_Proofs_Oracle C05_Proofs_Main.
+From DuneV Require Import Params_gen C05_Model C05_Spec C05_Proofs C05_Proofs_Comm C05_Proofs_Deliv C05_Proofs_Glue C05_Proofs_Remote C05_Proofs_Phase C05_Proofs_Dt C05_Proofs_Dec C05_Proofs_Obj C05_Proofs_Seq C05_Proofs_Oracle C05_Proofs_Main C05_Proofs_CommObj.
 Import ListNotations.
 
 (* Interface::build on ANY remote index map: no assert of InterfaceInformation::add fires; per neighbour exactly the local
@@ -547,3 +547,105 @@ Example C05_ex_history :
                              C05_BBuild (fun _ => 1) (fun _ => 1) [(0, ([1], [0]))]; C05_BCommunicate; C05_BCommunicate])
   = [(0, ({| c05_mi_start := 0; c05_mi_size := 1 |}, {| c05_mi_start := 0; c05_mi_size := 1 |}))].
 Proof. vm_compute. reflexivity. Qed.
+
+(* ------------------------------------------------------------------ round 6: OBJECT HISTORY x COMMUNICATOR
+   A communicator is the list of its processes in rank order; the neighbour numbers of an interface are ranks of the
+   communicator of the RemoteIndices it was built from, and a message reaches the process that has that rank in the
+   communicator the communicating object hands to MPI.  Interface::communicator() after ANY history (constructor
+   argument, earlier builds from remote indices on other communicators, free(), strip()) is the communicator of the
+   remote indices of the last build(); interfaces() is what the communicator-free object of C05_interface_history has. *)
+Theorem C05_interface_communicator_history : forall comm0 h,
+  c05_ic_comm (c05_icobj_run comm0 h) = c05_spec_last_comm comm0 h /\
+  c05_ic_ifs (c05_icobj_run comm0 h) = c05_iobj_run (map c05_icop_forget h).
+Proof. exact P_icobj_history. Qed.
+Print Assumptions C05_interface_communicator_history.
+
+Theorem C05_interface_communicator_after_build : forall comm0 h src dst rm rc,
+  c05_ic_ifs (c05_icobj_run comm0 h) <> None ->
+  let o := c05_icobj_run comm0 (h ++ [C05_ICFree; C05_ICBuild src dst rm rc]) in
+  c05_ic_comm o = rc /\ c05_ic_ifs o = Some (c05_iface_def src dst rm) /\
+  c05_ic_comm (c05_icobj_step o C05_ICStrip) = rc /\ c05_ic_comm (c05_icobj_step o C05_ICFree) = rc.
+Proof. exact P_icobj_build_after_free. Qed.
+Print Assumptions C05_interface_communicator_after_build.
+
+(* BufferedCommunicator: after ANY history, build(interface) carries the communicator of THAT interface and the message
+   layout of its map; forward()/backward() change neither *)
+Theorem C05_communicator_communicator_history : forall h szs szd i n,
+  let o := c05_bcobj_run (h ++ C05_BCBuild szs szd i :: repeat C05_BCCommunicate n) in
+  c05_bc_comm o = c05_ic_comm i /\ c05_bc_cm o = c05_comm_build szs szd (c05_ic_map i).
+Proof. exact P_bcobj_history. Qed.
+Print Assumptions C05_communicator_communicator_history.
+
+(* DatatypeCommunicator: the requests of the last build() are on the communicator of ITS remote indices *)
+Theorem C05_datatype_communicator_history : forall h src dst rm rc sd rd n,
+  let o := c05_dcobj_run (h ++ C05_DCBuild src dst rm rc sd rd :: repeat C05_DCCommunicate n) in
+  c05_dc_comm o = rc /\ c05_dc_types o = c05_dt_build src dst rm sd rd.
+Proof. exact P_dcobj_history. Qed.
+Print Assumptions C05_datatype_communicator_history.
+
+(* handing MPI the communicator the interfaces are numbered by: the process-level phase is the rank-level phase *)
+Theorem C05_same_communicator_routing : forall g add fwd cms gdata sdata orders, NoDup g ->
+  length cms = length g -> length gdata = length g -> length sdata = length g -> length orders = length g ->
+  c05_phase_on g g add fwd cms gdata sdata orders = c05_phase add fwd cms gdata sdata orders.
+Proof. exact P_phase_on_same. Qed.
+Print Assumptions C05_same_communicator_routing.
+
+Theorem C05_datatype_same_communicator_routing : forall g fwd types gdata sdata orders, NoDup g ->
+  length types = length g -> length gdata = length g -> length sdata = length g -> length orders = length g ->
+  c05_dt_phase_on g g fwd types gdata sdata orders = c05_dt_phase fwd types gdata sdata orders.
+Proof. exact P_dt_phase_on_same. Qed.
+Print Assumptions C05_datatype_same_communicator_routing.
+
+(* MAIN: per rank an arbitrary earlier life of the Interface object (constructor communicator comm0, history ihist with
+   builds on ANY communicators) and of the BufferedCommunicator object (bhist); then free() + build() of the interface from
+   remote indices on `built`, build() of the communicator from it, n communications.  The phase the objects run (routing by
+   the communicator THEY carry) is the rank-level phase of communicators built from scratch from the interfaces of the
+   definition — the object of C05_delivery, C05_terminates, C05_decomposition_delivery. *)
+Theorem C05_object_history_delivery : forall built src dst n (rs : list c05_rank_hist) add fwd gdata sdata orders,
+  NoDup built -> length rs = length built -> length gdata = length built -> length sdata = length built ->
+  length orders = length built ->
+  (forall r, In r rs -> c05_ic_ifs (c05_icobj_run (c05_rh_comm0 r) (c05_rh_ihist r)) <> None) ->
+  c05_phase_objs built add fwd (map (c05_rh_communicator built src dst n) rs) gdata sdata orders =
+  c05_phase add fwd (map (fun r => c05_comm_build (c05_rh_szs r) (c05_rh_szd r) (c05_iface_def src dst (c05_rh_rm r))) rs)
+            gdata sdata orders.
+Proof. exact P_object_history_delivery. Qed.
+Print Assumptions C05_object_history_delivery.
+
+(* the dimension is not vacuous: the same three communicators run on the communicator with the reversed rank order (what an
+   Interface that kept the communicator of an earlier life would hand to MPI) swap the two messages of the middle process *)
+Theorem C05_stale_communicator_misroutes :
+  c05_phase_on [0; 1; 2] [0; 1; 2] false true ex6_cms ex6_data ex6_data ex6_orders =
+    c05_phase false true ex6_cms ex6_data ex6_data ex6_orders /\
+  nth 1 (c05_phase false true ex6_cms ex6_data ex6_data ex6_orders) C05_Stuck =
+    C05_Ok [[20]; [10]; [30]]%N [(1, 0, 10%N); (2, 0, 30%N)] /\
+  nth 1 (c05_phase_on [2; 1; 0] [0; 1; 2] false true ex6_cms ex6_data ex6_data ex6_orders) C05_Stuck =
+    C05_Ok [[20]; [30]; [10]]%N [(1, 0, 30%N); (2, 0, 10%N)].
+Proof. exact P_stale_communicator_misroutes. Qed.
+Print Assumptions C05_stale_communicator_misroutes.
+
+(* non-vacuity of C05_object_history_delivery: three ranks whose Interface objects were constructed with the REVERSED
+   communicator and built on it before, and whose BufferedCommunicator objects were built from that earlier interface *)
+Definition ex6_rm (p : nat) : c05_rmap :=
+  let e g l a ra := {| c05_re_attr := ra; c05_re_g := g; c05_re_l := l; c05_re_a := a |} in
+  match p with
+  | 0 => [(1, ([e 0 0 0 1], [e 1 1 1 0]))]
+  | 1 => [(0, ([e 1 0 0 1], [e 0 1 1 0])); (2, ([e 1 0 0 1], [e 2 2 1 0]))]
+  | _ => [(1, ([e 2 0 0 1], [e 1 1 1 0]))]
+  end.
+Definition ex6_rank (p : nat) : c05_rank_hist :=
+  let old := C05_ICBuild C05_All C05_All (ex6_rm (2 - p)) (Some [2; 1; 0]) in
+  {| c05_rh_comm0 := Some [2; 1; 0]; c05_rh_ihist := [old; C05_ICStrip];
+     c05_rh_bhist := [C05_BCBuild (fun _ => 1) (fun _ => 1) (c05_icobj_run (Some [2; 1; 0]) [old]); C05_BCCommunicate];
+     c05_rh_szs := fun _ => 1; c05_rh_szd := fun _ => 1; c05_rh_rm := ex6_rm p |}.
+Example C05_ex_object_history :
+  NoDup [0; 1; 2] /\
+  (forall r, In r (map ex6_rank [0; 1; 2]) -> c05_ic_ifs (c05_icobj_run (c05_rh_comm0 r) (c05_rh_ihist r)) <> None) /\
+  map (fun r => c05_ic_comm (c05_icobj_run (c05_rh_comm0 r) (c05_rh_ihist r))) (map ex6_rank [0; 1; 2]) = repeat (Some [2; 1; 0]) 3 /\
+  map (fun r => c05_bc_comm (c05_rh_communicator [0; 1; 2] (C05_Item 0) (C05_Item 1) 2 r)) (map ex6_rank [0; 1; 2]) = repeat (Some [0; 1; 2]) 3 /\
+  nth 1 (c05_phase_objs [0; 1; 2] false true (map (c05_rh_communicator [0; 1; 2] (C05_Item 0) (C05_Item 1) 2) (map ex6_rank [0; 1; 2]))
+                        ex6_data ex6_data ex6_orders) C05_Stuck = C05_Ok [[20]; [10]; [30]]%N [(1, 0, 10%N); (2, 0, 30%N)].
+Proof.
+  split; [repeat constructor; simpl; intuition discriminate|].
+  split; [intros r [E|[E|[E|[]]]]; subst r; vm_compute; discriminate|].
+  vm_compute. repeat split; reflexivity.
+Qed.
